@@ -511,6 +511,10 @@ class Parser(ExprParser):
                 else:
                     more = False
             elif self.token.typ == "TYPE_SPECIFIER":
+                if node.typemap is not None:
+                    self.error_msg(
+                        "type specifier '{}' cannot be combined with the type name '{}'",
+                        self.token.value, node.specifier[-1])
                 node.specifier.append(self.token.value)
                 self.info("type-specifier:", self.token.value)
                 # An identifier after a built-in specifier is the declared
